@@ -332,21 +332,11 @@ func p6(w *World, r *Report, reach *Reach, scope []*ssa.Function) {
 					}
 					nProd++
 					key := "new:" + w.FName(fn) + ":" + f.String()
-					bad := ""
-					for _, ex := range exitsAvoiding(posOf(al), func(i ssa.Instruction) bool { return w.establishing(i, al, f, memo) }, nil) {
-						ret, isRet := ex.(*ssa.Return)
-						if !isRet {
-							continue
-						}
-						if errResultIndex(fn) >= 0 && w.errState(ret) == triNonNil {
-							continue
-						}
-						bad = site(w, ret)
-					}
+					bad, path := w.unestablishedExit(fn, al, al, f, memo, 0)
 					if bad == "" {
-						r.OK("P-6", key, "every success exit after this allocation is preceded by a store of a non-nil value to the field, or by a decoder call that establishes it on all of its success paths", site(w, al))
+						r.OK("P-6", key, "every success exit after this allocation (in this function, or in the callers the object is returned to) is preceded by a store of a non-nil value to the field, or by a decoder call that establishes it on all of its success paths", site(w, al))
 					} else {
-						r.Violate("P-6", key, fmt.Sprintf("a %s built from request bytes can leave this function successfully with %s == nil; handlers dereference that field without a nil test (e.g. %s)", f.owner.Obj().Name(), f.String(), uses[0]), map[string]interface{}{"path": reach.Path(fn), "success_return": bad, "unguarded_uses": show}, site(w, al))
+						r.Violate("P-6", key, fmt.Sprintf("a %s built from request bytes can leave %s successfully with %s == nil; handlers dereference that field without a nil test (e.g. %s)", f.owner.Obj().Name(), path, f.String(), uses[0]), map[string]interface{}{"path": reach.Path(fn), "success_return": bad, "unguarded_uses": show}, site(w, al))
 					}
 				}
 			}
@@ -355,4 +345,104 @@ func p6(w *World, r *Report, reach *Reach, scope []*ssa.Function) {
 			r.Undecided("P-6", "field:"+f.String()+":producers", "the field is dereferenced on the input paths but no allocation of its type was found there")
 		}
 	}
+}
+
+// unestablishedExit looks for a success exit of fn reachable from `from` on which
+// field f of obj has not been established. When the object is handed to the
+// caller through the return value, the obligation moves to every call site.
+// Returns the offending return's position ("" if none) and the function it is in.
+func (w *World) unestablishedExit(fn *ssa.Function, from ssa.Instruction, obj ssa.Value, f fieldID, memo map[estKey]int, depth int) (string, string) {
+	isObj := func(v ssa.Value) bool {
+		v = stripConv(v)
+		if v == obj {
+			return true
+		}
+		if mi, ok := v.(*ssa.MakeInterface); ok && stripConv(mi.X) == obj {
+			return true
+		}
+		if ph, ok := v.(*ssa.Phi); ok {
+			for _, e := range ph.Edges {
+				e = stripConv(e)
+				if e == obj {
+					return true
+				}
+				if mi, ok := e.(*ssa.MakeInterface); ok && stripConv(mi.X) == obj {
+					return true
+				}
+			}
+		}
+		return false
+	}
+	// edges on which the object is known to be absent (obj == nil) are not ours
+	edgeOK := func(from, to *ssa.BasicBlock) bool {
+		ifi, ok := lastInstr(from).(*ssa.If)
+		if !ok {
+			return true
+		}
+		bo, ok := ifi.Cond.(*ssa.BinOp)
+		if !ok || (bo.Op != token.EQL && bo.Op != token.NEQ) {
+			return true
+		}
+		isNilC := func(x ssa.Value) bool { c, ok := x.(*ssa.Const); return ok && c.IsNil() }
+		var other ssa.Value
+		if isNilC(bo.Y) {
+			other = bo.X
+		} else if isNilC(bo.X) {
+			other = bo.Y
+		} else {
+			return true
+		}
+		if !isObj(other) {
+			return true
+		}
+		nilEdge := 0 // successor index on which other == nil
+		if bo.Op == token.NEQ {
+			nilEdge = 1
+		}
+		return from.Succs[nilEdge] != to
+	}
+	start := posOf(from)
+	start.i++
+	for _, ex := range exitsAvoiding(start, func(i ssa.Instruction) bool { return w.establishing(i, obj, f, memo) }, edgeOK) {
+		ret, isRet := ex.(*ssa.Return)
+		if !isRet {
+			continue
+		}
+		ei := errResultIndex(fn)
+		if ei >= 0 && w.errState(ret) == triNonNil {
+			continue
+		}
+		// is the object handed to the caller?
+		ridx := -1
+		for i := range ret.Results {
+			if i != ei && isObj(retResult(ret, i)) {
+				ridx = i
+			}
+		}
+		if ridx < 0 || depth >= 3 {
+			return site(w, ret), w.FName(fn)
+		}
+		callers := w.Callers(fn)
+		if len(callers) == 0 {
+			return site(w, ret), w.FName(fn)
+		}
+		for _, cs := range callers {
+			call, ok := cs.Site.(*ssa.Call)
+			if !ok {
+				return site(w, ret), w.FName(fn)
+			}
+			var robj ssa.Value = call
+			if fn.Signature.Results().Len() > 1 {
+				ex := extractOf(call, ridx)
+				if ex == nil {
+					continue // result discarded
+				}
+				robj = ex
+			}
+			if bad, where := w.unestablishedExit(cs.Caller, call, robj, f, memo, depth+1); bad != "" {
+				return bad, where
+			}
+		}
+	}
+	return "", ""
 }
